@@ -187,7 +187,8 @@ def VM.step (v : VM) : Op → Except MFault VM
   | .call => v.call
   | .ret => v.pop
   | .unwind n => v.popN n
-  | .contractCall target fs safe init =>
+  | .contractCall target fs0 safe init =>
+    let fs := fs0 % 256                                                         -- call.go:61 `callflag.CallFlag(int32(...))`: a CallFlag is a byte, the conversion truncates
     match v.flags with
     | none => .error .noContext
     | some cf =>
@@ -200,7 +201,8 @@ def VM.step (v : VM) : Op → Except MFault VM
     | some cf =>
       if !cf.has (fReadStates ||| fAllowCall) then .error .invalidCallFlags   -- call.go:24
       else v.callInternal target fs safe init
-  | .runtimeLoadScript h fs =>
+  | .runtimeLoadScript h fs0 =>
+    let fs := fs0 % 256                                                         -- engine.go:123: the same truncating conversion
     match v.flags with
     | none => .error .noContext
     | some cf =>
